@@ -48,10 +48,74 @@ type Result struct {
 	Stuck    string         `json:"stuck,omitempty"`
 	Panic    string         `json:"panic,omitempty"`
 	Viol     *Violation     `json:"violation,omitempty"`
+	Soft     []*Violation   `json:"soft,omitempty"`
 	Tape     []uint32       `json:"tape,omitempty"`
 	Trace    []string       `json:"trace,omitempty"`
 	Sample   any            `json:"sample,omitempty"`
 	StateSig string         `json:"state_sig,omitempty"`
+}
+
+// Aggregate summarises the uneventful runs of one worker process.
+type Aggregate struct {
+	Agg    bool                      `json:"agg"`
+	Prop   string                    `json:"prop"`
+	Runs   int                       `json:"runs"`
+	Evals  int                       `json:"evals"`
+	Steps  int64                     `json:"steps"`
+	SimMS  int64                     `json:"sim_ms"`
+	Trunc  int                       `json:"trunc"`
+	Faults map[string]int            `json:"faults"`
+	Probes map[string]int            `json:"probes"`
+	Cfg    map[string]map[string]int `json:"cfg"`
+	Shapes []string                  `json:"shapes"` // shape/state signature of every non-trivial run
+	States []string                  `json:"states"`
+	MaxRun int                       `json:"max_run"`
+	Viols  map[string]*ViolAgg       `json:"viols"`
+}
+
+// ViolAgg counts repeated occurrences of one (class, signature).
+type ViolAgg struct {
+	Viol  *Violation `json:"violation"`
+	Count int        `json:"count"` // occurrences not reported as full lines
+	seen  int
+}
+
+func (a *Aggregate) add(r *Result) {
+	a.Runs++
+	if r.Evals > 0 {
+		a.Evals += r.Evals
+	} else {
+		a.Evals++
+	}
+	a.Steps += int64(r.Steps)
+	a.SimMS += r.SimMS
+	if r.Trunc {
+		a.Trunc++
+	}
+	for k, v := range r.Faults {
+		a.Faults[k] += v
+	}
+	for k, v := range r.Probes {
+		a.Probes[k] += v
+	}
+	for k, v := range r.Cfg {
+		if a.Cfg[k] == nil {
+			a.Cfg[k] = map[string]int{}
+		}
+		sv := fmt.Sprint(v)
+		if len(a.Cfg[k]) < 12 || a.Cfg[k][sv] > 0 {
+			a.Cfg[k][sv]++
+		}
+	}
+	if r.Steps > 0 || r.Evals > 0 {
+		a.Shapes = append(a.Shapes, r.Shape[:16]+"/"+r.StateSig)
+	}
+	if r.StateSig != "" {
+		a.States = append(a.States, r.StateSig)
+	}
+	if r.Run > a.MaxRun {
+		a.MaxRun = r.Run
+	}
 }
 
 // RunCtx is what a scenario gets.
@@ -138,17 +202,25 @@ func runOne(t *testing.T, sc *Scenario, tape *Tape, tier string, run int, seed u
 	res.Hash = sim.Hash()
 	res.Shape = sim.Shape()
 	res.Steps = sim.Steps
-	res.SimMS = int64(sim.simElapsed / time.Millisecond)
+	if !sc.NoBubble {
+		res.SimMS = int64(sim.simElapsed / time.Millisecond)
+	}
 	res.Faults = sim.Faults
 	res.Probes = sim.Probes
 	res.Trunc = sim.Trunc
 	res.Stuck = sim.Stuck
 	res.Viol = sim.Viol
+	res.Soft = sim.Soft
+	if res.Viol == nil && len(res.Soft) > 0 {
+		res.Viol, res.Soft = res.Soft[0], res.Soft[1:]
+	}
 	if res.Viol != nil || *fTrace || run < 2 {
 		res.Trace = sim.Trace
 	}
 	if res.Viol != nil || res.Panic != "" {
 		res.Tape = tape.Used()
+	} else if run >= 48 {
+		res.Sample = nil // samples of the first runs are enough for the evidence file
 	}
 	res.WallMS = time.Since(start).Milliseconds()
 	progress.Add(1)
@@ -223,13 +295,49 @@ func TestEngine(t *testing.T) {
 	enc := json.NewEncoder(out)
 	deadline := time.Now().Add(*fBudget)
 	run := *fStart
+	agg := &Aggregate{Agg: true, Prop: sc.Prop, Faults: map[string]int{}, Probes: map[string]int{}, Cfg: map[string]map[string]int{}, Viols: map[string]*ViolAgg{}}
 	for n := 0; n < *fChunk && time.Now().Before(deadline); n++ {
 		seed := mixSeed(*fSeed, run)
 		res := runOne(t, sc, NewTape(seed), *fTier, run, seed)
-		if err := enc.Encode(&res); err != nil {
-			t.Fatal(err)
+		// full lines only for what the driver must look at individually;
+		// everything else is aggregated in-process
+		full := res.Panic != "" || res.Stuck != "" || run < 48 || *fTrace
+		if res.Viol != nil {
+			// the first occurrences of each (class, signature) are reported
+			// in full; further ones are only counted
+			var vas []*ViolAgg
+			for _, v := range append([]*Violation{res.Viol}, res.Soft...) {
+				key := v.Class + "|" + fmt.Sprint(v.Signature)
+				va := agg.Viols[key]
+				if va == nil {
+					va = &ViolAgg{Viol: v}
+					agg.Viols[key] = va
+				}
+				va.seen++
+				if va.seen <= 2 {
+					full = true
+				}
+				vas = append(vas, va)
+			}
+			if !full {
+				for _, va := range vas {
+					va.Count++
+				}
+			}
+		}
+		if full {
+			if err := enc.Encode(&res); err != nil {
+				t.Fatal(err)
+			}
+		} else {
+			agg.add(&res)
 		}
 		run += *fStride
+	}
+	if agg.Runs > 0 || len(agg.Viols) > 0 {
+		if err := enc.Encode(agg); err != nil {
+			t.Fatal(err)
+		}
 	}
 	fmt.Fprintf(os.Stderr, "VERIF-NEXT %d\n", run)
 }
@@ -256,6 +364,11 @@ func doReplay(t *testing.T, sc *Scenario) {
 		fmt.Printf("REPLAY: no violation (expected class %s)\n", rf.Class)
 		return
 	}
+	for i, v := range res.Soft {
+		if v.Class == rf.Class && res.Viol.Class != rf.Class {
+			res.Viol, res.Soft[i] = v, res.Viol
+		}
+	}
 	same := res.Viol.Class == rf.Class
 	fmt.Printf("REPLAY: violation class=%s hash=%s (recorded class=%s hash=%s) same_class=%v same_hash=%v\n",
 		res.Viol.Class, res.Hash, rf.Class, rf.Hash, same, res.Hash == rf.Hash)
@@ -276,6 +389,12 @@ func doShrink(t *testing.T, sc *Scenario) {
 		res := runOne(t, sc, ReplayTape(tp), rf.Tier, rf.Run, rf.BaseSeed)
 		if res.Viol != nil && res.Viol.Class == rf.Class {
 			return &res, true
+		}
+		for i, v := range res.Soft {
+			if v.Class == rf.Class {
+				res.Viol, res.Soft[i] = v, res.Viol
+				return &res, true
+			}
 		}
 		return nil, false
 	}
